@@ -23,6 +23,7 @@ def configs(backends, pools=True, announce=False, bounce=False):
         if announce and draw(st.booleans()) and cfg.get('store_pool') != 1:
             cfg['announce'] = True
         if bounce:
+            cfg['shared_replies'] = draw(st.sampled_from([False, False, True]))
             cfg['bounce_factory'] = draw(st.sampled_from(['default', 'default', 'headersonly', 'none']))
             cfg['bounce_queue'] = draw(st.sampled_from(['self', 'self', 'separate', 'separate-queue']))
         return cfg
@@ -352,6 +353,14 @@ def exhausted_dup_history():
                         cases.append(({'backend': 'dict', 'backoff': backoff},
                                       [['enqueue', {'n': n, 'sender': True, 'body': '', 'dup': dup}], ['answer', spec], ['storage'],
                                        ['tick'], ['answer', spec], ['storage']]))
+    # two messages run out of retries on the same reply object
+    for shape in ('map', 'raise_t'):
+        for backoff in ([], [0]):
+            spec = {'shape': shape, 'per': ['temp'], 'replies': [0]}
+            one = [['answer', spec], ['storage'], ['tick'], ['answer', spec], ['storage']]
+            cases.append(({'backend': 'dict', 'backoff': backoff, 'shared_replies': True},
+                          [['enqueue', {'n': 2, 'sender': True, 'body': ''}]] + one + [['enqueue', {'n': 1, 'sender': True, 'body': ''}]] + one +
+                          [['enqueue', {'n': 1, 'sender': True, 'body': ''}]] + one))
     return st.sampled_from(cases)
 
 
